@@ -245,7 +245,7 @@ pub fn run(prop: &str, args: &Args) -> i32 {
     o.insert("distinct_nontrivial".into(), json!(totals.nontrivial));
     o.insert(
         "rule".into(),
-        json!("E1: BFS from every catalogue root (each also colour-mirrored), states deduplicated on (placement, side, rights, ep file[, half-move clock if >= 90]); E2: every square assignment of the listed small-material families. A state is non-trivial when en passant is available, the side to move is in check, the legality filter rejects a pseudo-legal move (pin / king step into attack), castling is available or a promotion is available. Every transition is executed on the real Board (move_new) and on the reference in lock-step."),
+        json!("E1: BFS from every catalogue root (each also colour-mirrored), states deduplicated on (placement, side, rights, ep file[, half-move clock if >= 90]); for C01-C03 also four rights-history roots explored to depth 8 (thorough 10) over a small destination set while carrying the board reached by play (stale castling rights); E2: every square assignment of the listed small-material families. A state is non-trivial when en passant is available, the side to move is in check, the legality filter rejects a pseudo-legal move (pin / king step into attack), castling is available or a promotion is available. Every transition is executed on the real Board (move_new) and on the reference in lock-step."),
     );
     o.insert("exhaustive".into(), json!(true));
     o.insert("bounds".into(), json!({"start_depth": b.start_depth, "perft_root_depth": b.perft_depth, "scenario_root_depth": b.scenario_depth, "caps_hit": false}));
